@@ -54,6 +54,35 @@ func Complete() {
 	rt.Cover(i == j, "i==j")
 }
 
+// Held: a proof handed out stays what it was while the log serves other queries
+// and accepts further events (a server serialises the answer after the query
+// returned, and a client may verify it later): two consistency proofs and a
+// membership proof are requested, one more event is added, and only then is each
+// proof verified against the snapshots of its own versions.
+func Held() {
+	n, i, j := pick()
+	l := build(n)
+	p1, err := l.B.QueryConsistency(uint64(i), uint64(j))
+	rt.Assert(err == nil, "query-ok")
+	l2 := rt.Choose("j2", n)
+	k2 := rt.Choose("i2", l2+1)
+	p2, err2 := l.B.QueryConsistency(uint64(k2), uint64(l2))
+	rt.Assert(err2 == nil, "second-query-ok")
+	e := rt.Choose("event", n)
+	mp, err3 := l.B.QueryDigestMembershipConsistency(l.Digests[e], uint64(n-1))
+	rt.Assert(err3 == nil, "membership-query-ok")
+	if err != nil || err2 != nil || err3 != nil {
+		return
+	}
+	if rt.Choose("then-add", 2) == 1 {
+		l.Add(digest("late", n))
+	}
+	rt.Assert(verify(p1, l.Snaps[i], l.Snaps[j]), "held-proof-still-verifies")
+	rt.Assert(verify(p2, l.Snaps[k2], l.Snaps[l2]), "second-held-proof-verifies")
+	snap := &balloon.Snapshot{HistoryDigest: l.Snaps[n-1].HistoryDigest, HyperDigest: l.Snaps[n-1].HyperDigest, Version: uint64(n - 1)}
+	rt.Assert(mp.DigestVerify(l.Digests[e], snap), "held-membership-proof-verifies")
+}
+
 // Twin must reach its assert(false).
 func Twin() {
 	n, i, j := pick()
